@@ -1335,17 +1335,41 @@ def corr_options(ctx, rng):
             ctx.disagree('decode_configuration_options', {'bytes': b.hex()}, repr(mm), repr(impl))
 
 
+def _le16(x):
+    return int(x).to_bytes(2, 'little')
+
+
+# the lists built by the __post_init__ loops of four ATT response classes, as item bytes
+ATT_ITEMS = {
+    'ATT_Find_Information_Response': lambda i: [_le16(h) + bytes(u) for h, u in i.information],
+    'ATT_Find_By_Type_Value_Response': lambda i: [_le16(a) + _le16(b) for a, b in i.handles_information],
+    'ATT_Read_By_Type_Response': lambda i: [_le16(h) + bytes(v) for h, v in i.attributes],
+    'ATT_Read_By_Group_Type_Response': lambda i: [_le16(h) + _le16(e) + bytes(v) for h, e, v in i.attributes],
+}
+
+
 def _field_values(instance):
     vals = []
     for f in instance.fields:
         name = f[0]
         v = getattr(instance, name)
         vals.append(bytes(v) if isinstance(v, (bytes, bytearray)) else int(v))
+    items = ATT_ITEMS.get(type(instance).__name__)
+    if items is not None:
+        vals.append(['items'] + items(instance))
     return vals
 
 
 def _canon_fvals(vals):
-    return [bytes(v[1]) if v[0] == 'VBytes' else v[1] for v in vals]
+    out = []
+    for v in vals:
+        if v[0] == 'VBytes':
+            out.append(bytes(v[1]))
+        elif v[0] == 'VItems':
+            out.append(['items'] + [bytes(x) for x in v[1]])
+        else:
+            out.append(v[1])
+    return out
 
 
 def corr_att(ctx, rng):
@@ -1368,6 +1392,12 @@ def _corr_layer(ctx, rng, layer, table, real):
                 cases.append(bytes([code]) + rng.bytes(n))
         for _ in range(ctx.n(200, 3000)):
             cases.append(bytes([rng.choice(reg[layer] + [rng.below(256)])]) + rng.bytes(rng.choice([0, 1, 2, 3, 4, 6, 16, 20])))
+        if layer == 'att':
+            # the length-driven item loops of the response classes: every small length byte
+            for op in (5, 7, 9, 17):
+                for first in (0, 1, 2, 3, 4, 5, 6, 7, 18, 255):
+                    for n in (0, 1, 2, 3, 4, 5, 7, 8, 12, 18, 19, 36):
+                        cases.append(bytes([op, first]) + rng.bytes(n))
         exprs = [f'{layer}_from_bytes {table} {coq_bytes(b)}' for b in cases]
         model = yield exprs
         from bumble import core
@@ -1388,6 +1418,9 @@ def _corr_layer(ctx, rng, layer, table, real):
             except Exception as e:
                 impl = ['error', type(e).__name__]
             ctx.count(f'corr.{layer}')
+            if m == 'POutOfFuel':
+                ctx.disagree(f'{layer} model out of fuel', {'bytes': b.hex()}, 'POutOfFuel', repr(impl))
+                continue
             if m[0] == 'PErr' and m[1] == 'EOpaque':
                 ctx.count(f'corr.{layer}.opaque-class')
                 ctx.case((layer, b), False, None)
@@ -2048,7 +2081,7 @@ def run(ctx):
     ctx.extra['recorded_hci_packets'] = [len(x) for x in seeds['hci']]
     cases = load_corpus() + directed_cases()
     gen = Gen(ctx.rng.fork('campaign'), seeds)
-    for _ in range(ctx.n(2200, 40000)):
+    for _ in range(ctx.n(2200, 30000)):
         cases.append(gen.case())
     campaign(ctx, cases)
     ctx.log('campaign done:', ctx.dist.get('campaign.cases'), 'cases,', len(ctx.violations), 'violations')
